@@ -64,6 +64,22 @@ def reorder(x, how):
 
 
 def decode(event, strings, via):
+    via, _, tz = via.partition(':TZ=')
+    if tz:
+        # decode with the process's zone set to tz (restored afterwards)
+        import os
+        import time
+        saved = os.environ.get('TZ')
+        os.environ['TZ'] = tz
+        time.tzset()
+        try:
+            return decode(event, strings, via)
+        finally:
+            if saved is None:
+                os.environ.pop('TZ', None)
+            else:
+                os.environ['TZ'] = saved
+            time.tzset()
     if via in ('reversed', 'sorted'):
         return OsLogEvent.from_raw_log_event(reorder(copy.deepcopy(event), via), strings)
     if via == 'direct':
@@ -261,7 +277,7 @@ class C16(Check):
     level = 'exploration'
     rule = ('raw log records = mandatory keys + subsets of the 31 optional keys: every subset with <=3 keys present and every subset '
             'with <=3 keys absent (quick: <=2 / <=2), the full product over the 8 string-index keys (2^8) and over the 10 '
-            'loss/signpost keys (2^10); timestamps sec {0,1,1.6e9,2^31-1,2^32-1} x usec {0,1,499999,500000,999999}; every string key pointing at string-index slot 0; log types (5); '
+            'loss/signpost keys (2^10); timestamps sec {0,1,1.6e9,2^31-1,2^32-1} x usec {0,1,499999,500000,999999}; the same instants decoded while the process runs under the zones EST5EDT, IST-5:30, NZST-12NZDT, UTC; every string key pointing at string-index slot 0; log types (5); '
             'decomposed messages: every single-segment shape over the optional sub-keys (2 x 25 x 145), all pairs over a reduced '
             'set, and literal-only segments before/after/between placeholder segments (placeholder count < segment count); trace identifiers: namespace (7) x every type the format defines for it x all 64 values of the general flag bits x '
             'namespace flags (log: all 32 subsets; trace: 9 values incl. 0; 0 elsewhere) x code {0,1,2^32-1}; decoded directly '
@@ -301,6 +317,12 @@ class C16(Check):
             for sec in (0, 1, 1600000000, 2 ** 31 - 1, 2 ** 32 - 1):
                 for usec in (0, 1, 499999, 500000, 999999):
                     self._rec(acc, {'p'}, 'direct', {'ud': {'sec': sec, 'usec': usec}})
+            # the decoding process's own time zone is not part of the record: the same instants under four zones
+            for tz in ('EST5EDT', 'IST-5:30', 'NZST-12NZDT', 'UTC'):
+                for sec in (0, 1600000000, 1600000000 + 12 * 3600, 2 ** 31 - 1):
+                    for usec in (0, 999999):
+                        self._rec(acc, {'p'}, 'direct:TZ=' + tz, {'ud': {'sec': sec, 'usec': usec}})
+                        self._rec(acc, set(KEYS), 'v3:TZ=' + tz, {'ud': {'sec': sec, 'usec': usec}})
             for lt in LOG_TYPES:
                 self._rec(acc, {'lt'}, 'direct', {'lt': lt})
             self._rec(acc, {'bt', 'p'}, 'direct', {'bt': [{'iu': bytes([i % 256]) * 16, 'io': i} for i in range(300)]})
